@@ -2,11 +2,11 @@ package core
 
 import (
 	"fmt"
-	"os"
 	"go/ast"
 	"go/constant"
 	"go/token"
 	"go/types"
+	"os"
 	"sort"
 
 	"golang.org/x/tools/go/cfg"
